@@ -598,11 +598,13 @@ func (w *worker[T, JobType]) start() error {
 	vhook("start.enter")
 
 	defer w.notifyToPullNextJobs()
+	// the context listener is started once the worker is Running: if the context is already
+	// cancelled its Stop() must not find the worker still Initiated (it would give up for good)
+	defer w.goListenToContext()
 	defer w.status.Store(running)
 
 	w.goEventLoop()
 	w.goRemoveIdleWorkers()
-	w.goListenToContext()
 
 	// init the first worker by default
 	w.pool.PushNode(w.initPoolNode())
